@@ -83,6 +83,7 @@ fn hostile_scripts(rng: &mut Rng, nh: usize) -> Vec<Script> {
                 no_query: rng.chance(1, 12),
                 no_event: rng.chance(1, 12),
                 tolerant: rng.chance(1, 4),
+                fail_before_pulls: rng.bool(),
             }
         })
         .collect()
